@@ -1,7 +1,9 @@
 ----------------------------- MODULE MCCodeArea -----------------------------
 (* Exhaustive small model of tk.CodeArea's event handling for C28 + generator of behaviours.
-   Alphabet of events on an initially empty code area (abbreviations: simple "ab" -> "你",
-   small-word "b" -> "bb", command "a" -> "aa"):
+   Alphabet of events on an initially empty code area.  The abbreviation tables overlap on
+   purpose, so that one key can complete two kinds at once: simple "ab" -> "你" and "b;" -> "你"
+   (the latter, minus its last rune, is the small-word abbreviation, and that rune is a trigger of
+   another category), small-word "b" -> "bb", command "a" -> "aa" (a prefix of the simple "ab"):
      Key a | Key b | Key ' ' | Key ';' | Key 你 | Backspace | Func | Left | Right (the builtins
      move-dot-left / move-dot-right through MutateState) | PasteStart | PasteEnd (not quoted)
    Two layers run side by side:
@@ -24,7 +26,7 @@ TB == [r |-> 98, c |-> "alnum", w |-> 1]
 TS == [r |-> 32, c |-> "space", w |-> 1]
 TC == [r |-> 59, c |-> "punct", w |-> 1]
 TW == [r |-> 20320, c |-> "alnum", w |-> 2]
-Tabs == [sab |-> << [k |-> <<TA, TB>>, v |-> <<TW>>] >>,
+Tabs == [sab |-> << [k |-> <<TA, TB>>, v |-> <<TW>>], [k |-> <<TB, TC>>, v |-> <<TW>>] >>,
          wab |-> << [k |-> <<TB>>, v |-> <<TB, TB>>] >>,
          cab |-> << [k |-> <<TA>>, v |-> <<TA, TA>>] >>]
 KeyToks == {TA, TB, TS, TC, TW}
